@@ -224,6 +224,19 @@ impl Mul<Arc> for Affine {
     }
 }
 
+
+/// Verification hooks: access to private helpers.
+#[cfg(kurbo_verif)]
+#[allow(missing_docs)]
+pub fn verif_sample_ellipse(radii: Vec2, x_rotation: f64, angle: f64) -> Vec2 {
+    sample_ellipse(radii, x_rotation, angle)
+}
+#[cfg(kurbo_verif)]
+#[allow(missing_docs)]
+pub fn verif_rotate_pt(pt: Vec2, angle: f64) -> Vec2 {
+    rotate_pt(pt, angle)
+}
+
 #[cfg(test)]
 mod tests {
     use super::*;
